@@ -109,6 +109,25 @@ func c02Run(c *Ctx) {
 			}
 		}
 	}
+	// 2c. numeric-looking strings: an operator that accepts them must see the number s * 1 gives
+	strs := []string{`"0"`, `"-0"`, `"0.0"`, `"\u09e6"`, `"5"`, `"-3"`, `"2.5"`, `"64"`, `"-1"`, `"1e3"`, `"007"`, `" 4"`, `"0x10"`, `("" + 0)`, `("" + (0 - 2))`, `"9223372036854775808"`, `"1.5"`, `"inf"`, `"NaN"`}
+	partners := []string{"1", "0", "7", "(-2)", "2.5", "(1 << 40)"}
+	for _, sv := range strs {
+		for _, op := range []string{"-", "*", "/", "%", "**", "<", "<=", ">", ">=", "&", "|", "^", "<<", ">>"} {
+			for _, a := range partners {
+				for _, side := range []string{"left", "right"} {
+					if c.Mine() {
+						c02Judge(c, &Case{Gen: "string-coercion", Src: sv + " " + op + " " + a + " " + side, X: map[string]string{"s": sv, "a": a, "op": op, "side": side}})
+					}
+				}
+			}
+		}
+		for _, op := range []string{"-", "~"} {
+			if c.Mine() {
+				c02Judge(c, &Case{Gen: "string-coercion", Src: op + sv, X: map[string]string{"s": sv, "a": "0", "op": op, "side": "unary"}})
+			}
+		}
+	}
 	// 3. equality laws (no model needed): total, boolean, symmetric, != is the negation, reflexive on non-NaN
 	for _, a := range pool {
 		for _, b := range pool {
@@ -253,6 +272,9 @@ func c02Judge(c *Ctx, cs *Case) {
 	case "bigpow":
 		c02BigPow(c, cs)
 		return
+	case "string-coercion":
+		c02Coercion(c, cs)
+		return
 	}
 	if cs.Mode == "cli" {
 		m := RunModel(cs.Src, "", false, 0)
@@ -274,6 +296,53 @@ func c02Judge(c *Ctx, cs *Case) {
 			c.Count("outcome:value", 1)
 		}
 	}
+	c.Sample(cs.Gen, cs.Src)
+}
+
+// c02Coercion: the absolute result of an operator on a numeric-looking string is
+// not pinned, but when the operator accepts the string at all it must treat it as the
+// number that arithmetic coercion (s * 1) gives: same value, and the same faults
+// (zero divisor, negative shift, non-integral bitwise operand).
+func c02Coercion(c *Ctx, cs *Case) {
+	pre := Var("s", cs.X["s"]) + "\n" + Var("a", cs.X["a"]) + "\n"
+	run := func(body string) *Obs { return RunLib(pre+body+"\n", RunOpts{MaxSteps: 100000}) }
+	probe := run(Print("s * 1"))
+	if CheckAbnormal(c, probe) {
+		return
+	}
+	if probe.Exit != 0 {
+		c.Count("coercion_not_accepted", 1)
+		return
+	}
+	op := cs.X["op"]
+	var direct, viaNumber *Obs
+	switch cs.X["side"] {
+	case "right":
+		direct, viaNumber = run(Print("a "+op+" s")), run(Print("a "+op+" (s * 1)"))
+	case "left":
+		direct, viaNumber = run(Print("s "+op+" a")), run(Print("(s * 1) "+op+" a"))
+	default:
+		direct, viaNumber = run(Print(op+"s")), run(Print(op+"(s * 1)"))
+	}
+	if CheckAbnormal(c, direct) || CheckAbnormal(c, viaNumber) {
+		return
+	}
+	d1, d2 := ParseDiags(direct.Stderr), ParseDiags(viaNumber.Stderr)
+	if direct.Exit != 0 && len(d1) > 0 && viaNumber.Exit == 0 {
+		// the operator rejects strings although the number would be fine: allowed (type error), not compared
+		c.Count("coercion_operator_rejects_string", 1)
+		return
+	}
+	same := direct.Stdout == viaNumber.Stdout && direct.Exit == viaNumber.Exit
+	if same && len(d1) > 0 && len(d2) > 0 {
+		same = NormDiag(d1[0], true) == NormDiag(d2[0], true)
+	}
+	if !same {
+		c.Violate(Violation{Why: fmt.Sprintf("operator %s treats the string %s differently from the number it coerces to (s * 1)", op, cs.X["s"]), Expected: "with the number: " + describeObs(viaNumber), Observed: "with the string: " + describeObs(direct), Signature: "coercion-inconsistent:" + op})
+		return
+	}
+	c.Count("coercion_consistent", 1)
+	c.Nontrivial(cs.Src)
 	c.Sample(cs.Gen, cs.Src)
 }
 
@@ -361,7 +430,7 @@ func init() {
 		Run:         c02Run,
 		Judge:       c02Judge,
 		MustCount: func(c *Ctx) []string {
-			return []string{"gen:matrix", "gen:unary-chains", "gen:literal-operands", "gen:eqlaws", "gen:randdouble", "gen:randbitwise", "gen:nested", "gen:bigpow", "outcome:fault", "outcome:value", "cli_runs"}
+			return []string{"gen:matrix", "gen:string-coercion", "coercion_consistent", "gen:unary-chains", "gen:literal-operands", "gen:eqlaws", "gen:randdouble", "gen:randbitwise", "gen:nested", "gen:bigpow", "outcome:fault", "outcome:value", "cli_runs"}
 		},
 	})
 }
